@@ -92,6 +92,7 @@ type panicSite struct {
 	in     ssa.Instruction
 	expr   string // stable rendering of the operand
 	detail string
+	canon  string // the same expression with local names replaced by their types (stable under renaming)
 }
 
 type panicModel struct {
@@ -249,24 +250,24 @@ func (pm *panicModel) sites(c *Ctx) []panicSite {
 			case *ssa.IndexAddr:
 				if s, ok := byPos[posKey()]; ok {
 					matched[posKey()] = true
-					out = append(out, panicSite{"bounds", in, render(x.X) + "[" + render(x.Index) + "]", s.kind})
+					out = append(out, mkSite("bounds", in, func() string { return render(x.X) + "[" + render(x.Index) + "]" }, s.kind))
 				}
 			case *ssa.Index:
 				if s, ok := byPos[posKey()]; ok {
 					matched[posKey()] = true
-					out = append(out, panicSite{"bounds", in, render(x.X) + "[" + render(x.Index) + "]", s.kind})
+					out = append(out, mkSite("bounds", in, func() string { return render(x.X) + "[" + render(x.Index) + "]" }, s.kind))
 				}
 			case *ssa.Lookup:
 				if _, isStr := x.X.Type().Underlying().(*types.Basic); isStr {
 					if s, ok := byPos[posKey()]; ok {
 						matched[posKey()] = true
-						out = append(out, panicSite{"bounds", in, render(x.X) + "[" + render(x.Index) + "]", s.kind})
+						out = append(out, mkSite("bounds", in, func() string { return render(x.X) + "[" + render(x.Index) + "]" }, s.kind))
 					}
 				}
 			case *ssa.Slice:
 				if s, ok := byPos[posKey()]; ok {
 					matched[posKey()] = true
-					out = append(out, panicSite{"bounds", in, render(x), s.kind})
+					out = append(out, mkSite("bounds", in, func() string { return render(x) }, s.kind))
 				}
 			case *ssa.TypeAssert:
 				if !x.CommaOk && x.Pos().IsValid() {
@@ -274,20 +275,20 @@ func (pm *panicModel) sites(c *Ctx) []panicSite {
 					if types.IsInterface(x.AssertedType) && types.Identical(x.X.Type(), x.AssertedType) {
 						kind = "nilcheck" // method value taken from an interface value
 					}
-					out = append(out, panicSite{kind, in, render(x.X) + ".(" + types.TypeString(x.AssertedType, shortQual) + ")", ""})
+					out = append(out, mkSite(kind, in, func() string { return render(x.X) + ".(" + types.TypeString(x.AssertedType, shortQual) + ")" }, ""))
 				}
 			case *ssa.Panic:
 				if x.Pos().IsValid() {
-					out = append(out, panicSite{"panic", in, panicText(x), ""})
+					out = append(out, mkSite("panic", in, func() string { return panicText(x) }, ""))
 				}
 			case *ssa.MapUpdate:
 				// store into a map held in a field that may never have been made
 				if _, fld, ok := fieldLoad(strip(x.Map)); ok && ownField(fld) {
-					out = append(out, panicSite{"nilmap", in, "store into ." + fld.Name(), fld.Name()})
+					out = append(out, mkSite("nilmap", in, func() string { return "store into ." + fld.Name() }, fld.Name()))
 				}
 			case *ssa.MakeSlice:
 				if _, isK := constInt(x.Len); !isK {
-					out = append(out, panicSite{"alloc", in, "make(" + types.TypeString(x.Type(), shortQual) + ", " + render(x.Len) + ")", ""})
+					out = append(out, mkSite("alloc", in, func() string { return "make(" + types.TypeString(x.Type(), shortQual) + ", " + render(x.Len) + ")" }, ""))
 				}
 			case ssa.CallInstruction:
 				cc := x.Common()
@@ -295,23 +296,23 @@ func (pm *panicModel) sites(c *Ctx) []panicSite {
 					full := o.Pkg().Path() + "." + o.Name()
 					switch full {
 					case "os.Exit", "log.Fatal", "log.Fatalf", "log.Fatalln", "runtime.Goexit":
-						out = append(out, panicSite{"exit", in, full, ""})
+						out = append(out, mkSite("exit", in, func() string { return full }, ""))
 					}
 				}
 				// call of a func/interface field of an own struct
 				if !cc.IsInvoke() && staticCallee(cc) == nil {
 					if _, fld, ok := fieldLoad(strip(cc.Value)); ok && ownField(fld) {
-						out = append(out, panicSite{"nilcall", in, "call of field ." + fld.Name(), fld.Name()})
+						out = append(out, mkSite("nilcall", in, func() string { return "call of field ." + fld.Name() }, fld.Name()))
 					}
 				} else if cc.IsInvoke() {
 					if _, fld, ok := fieldLoad(strip(cc.Value)); ok && ownField(fld) {
-						out = append(out, panicSite{"nilcall", in, "method call on interface field ." + fld.Name(), fld.Name()})
+						out = append(out, mkSite("nilcall", in, func() string { return "method call on interface field ." + fld.Name() }, fld.Name()))
 					}
 				}
 			case *ssa.BinOp:
 				if (x.Op == token.QUO || x.Op == token.REM) && intWidth(x.Type()) > 0 {
 					if _, isK := constInt(x.Y); !isK {
-						out = append(out, panicSite{"divide", in, render(x), ""})
+						out = append(out, mkSite("divide", in, func() string { return render(x) }, ""))
 					}
 				}
 			}
@@ -678,6 +679,24 @@ func (bp *boundsProver) prove(in ssa.Instruction) (bool, string) {
 			}
 		}
 		if need < 0 {
+			// x[lo:] with a variable lower bound: lo ≤ len(x) from a dominating comparison
+			if x.Low != nil && x.High == nil {
+				for _, f := range bp.facts {
+					if f.Op != token.LSS && f.Op != token.LEQ && f.Op != token.GTR && f.Op != token.GEQ {
+						continue
+					}
+					lo, bound := f.X, f.Y
+					if f.Op == token.GTR || f.Op == token.GEQ {
+						lo, bound = f.Y, f.X
+					}
+					if !bp.same(lo, x.Low) {
+						continue
+					}
+					if lx, ok := lenOperand(strip(bound)); ok && (bp.same(lx, x.X) || sameBytes(lx, x.X)) {
+						return true, "lower bound ≤ len(" + render(x.X) + ") on every path"
+					}
+				}
+			}
 			return false, ""
 		}
 		lb := bp.lenLB(x.X, 0)
@@ -764,4 +783,13 @@ var statefulTypes = map[string]bool{
 func statefulOwner(t types.Type) bool {
 	n := namedOf(t)
 	return n != nil && n.Obj().Pkg() != nil && ownPkgPath(n.Obj().Pkg().Path()) && statefulTypes[n.Obj().Name()]
+}
+
+// mkSite renders the operand twice: as written (for reports) and canonically (for the reason table).
+func mkSite(kind string, in ssa.Instruction, r func() string, detail string) panicSite {
+	expr := r()
+	renderCanon++
+	canon := r()
+	renderCanon--
+	return panicSite{kind: kind, in: in, expr: expr, detail: detail, canon: canon}
 }
